@@ -15,6 +15,11 @@ pub enum Purpose {
 
 /// Verify leaf -> intermediates -> root with OpenSSL at the given time. Ok(()) = accepted.
 pub fn openssl_chain(leaf: &[u8], intermediates: &[Vec<u8>], root: &[u8], time: i64, purpose: Purpose, partial_chain: bool) -> Result<(), String> {
+    openssl_chain_flags(leaf, intermediates, root, time, purpose, partial_chain, false)
+}
+
+/// As `openssl_chain`; `strict` adds X509_V_FLAG_X509_STRICT (OpenSSL's own RFC 5280 profile checks).
+pub fn openssl_chain_flags(leaf: &[u8], intermediates: &[Vec<u8>], root: &[u8], time: i64, purpose: Purpose, partial_chain: bool, strict: bool) -> Result<(), String> {
     let leaf = X509::from_der(leaf).map_err(|e| format!("d2i leaf: {}", e))?;
     let root = X509::from_der(root).map_err(|e| format!("d2i root: {}", e))?;
     let mut sb = X509StoreBuilder::new().map_err(|e| e.to_string())?;
@@ -28,6 +33,9 @@ pub fn openssl_chain(leaf: &[u8], intermediates: &[Vec<u8>], root: &[u8], time: 
     }
     if partial_chain {
         param.set_flags(X509VerifyFlags::PARTIAL_CHAIN).map_err(|e| e.to_string())?;
+    }
+    if strict {
+        param.set_flags(X509VerifyFlags::X509_STRICT).map_err(|e| e.to_string())?;
     }
     sb.set_param(&param).map_err(|e| e.to_string())?;
     let store = sb.build();
